@@ -1,4 +1,449 @@
+//! fv-policyx: driver for property C14 (eviction policies).
+//!
+//! Replays call sequences on every built-in policy of `fibre_cache::policy` through the
+//! `CachePolicy` trait and records what was called and what came back, as ndjson histories
+//! for TLC trace validation against specs/policy/PolicyTrace.tla. The driver is the user of
+//! the trait: it never computes an expected result.
+//!
+//!   --mode enum   --seqs FILE          replay every sequence of FILE (one JSON array of
+//!                                      [op,a,b] calls per line, printed by MC_PolicySeq)
+//!   --mode rand   --programs N --ops M --seed S   seeded random longer sequences, more keys
+//!   --mode replay --prog '[[1,1,1],[4,1,0]]' [--inst arc/2]   one sequence, history on stdout
+//!   --out FILE    ndjson histories        --policies lru,fifo,...   restrict the policies
+//!
+//! Identical histories of several policy instances are written once, with the list of the
+//! instances in the `new` record.
+
+use fibre_cache::policy::arc::ArcPolicy;
+use fibre_cache::policy::clock::ClockPolicy;
+use fibre_cache::policy::fifo::Fifo;
+use fibre_cache::policy::lru::LruPolicy;
+use fibre_cache::policy::null::NullPolicy;
+use fibre_cache::policy::random::RandomPolicy;
+use fibre_cache::policy::sieve::SievePolicy;
+use fibre_cache::policy::slru::SlruPolicy;
+use fibre_cache::policy::tinylfu::TinyLfuPolicy;
+use fibre_cache::policy::{AdmissionDecision, CachePolicy};
+use rand::rngs::StdRng;
+use rand::{Rng, SeedableRng};
+use std::collections::{BTreeMap, BTreeSet, HashMap};
+use std::io::{BufRead, BufWriter, Write};
+use std::panic::{catch_unwind, AssertUnwindSafe};
+use std::sync::mpsc;
+use std::sync::{Arc, Mutex};
+use std::time::Duration;
+
+type Pol = Box<dyn CachePolicy<u64, ()>>;
+
+#[derive(Clone, Debug)]
+struct Inst {
+  name: &'static str,
+  cap: u64,
+}
+
+impl Inst {
+  fn label(&self) -> String {
+    match self.name {
+      "arc" | "slru" | "tinylfu" => format!("{}/{}", self.name, self.cap),
+      _ => self.name.to_string(),
+    }
+  }
+  fn build(&self) -> Pol {
+    match self.name {
+      "lru" => Box::new(LruPolicy::<u64>::new()),
+      "fifo" => Box::new(Fifo::<u64>::new()),
+      "sieve" => Box::new(SievePolicy::<u64>::new()),
+      "clock" => Box::new(ClockPolicy::<u64>::new()),
+      "random" => Box::new(RandomPolicy::<u64>::new()),
+      "null" => Box::new(NullPolicy),
+      "slru" => Box::new(SlruPolicy::<u64>::new(self.cap)),
+      "arc" => Box::new(ArcPolicy::<u64>::new(self.cap as usize)),
+      "tinylfu" => Box::new(TinyLfuPolicy::<u64>::new(self.cap)),
+      other => panic!("unknown policy {other}"),
+    }
+  }
+}
+
+const ALL: [&str; 9] = ["lru", "fifo", "sieve", "clock", "slru", "arc", "tinylfu", "random", "null"];
+
+fn parse_inst(s: &str) -> Inst {
+  let (n, c) = match s.split_once('/') {
+    Some((n, c)) => (n, c.parse().expect("capacity")),
+    None => (s, 0),
+  };
+  let name = ALL.iter().find(|x| **x == n).unwrap_or_else(|| panic!("unknown policy {n}"));
+  Inst { name, cap: c }
+}
+
+/// The instances every enumerated sequence is replayed on (3 keys, costs <= 3).
+fn enum_instances(sel: &BTreeSet<String>) -> Vec<Inst> {
+  let mut v = Vec::new();
+  for n in ALL {
+    if !sel.is_empty() && !sel.contains(n) {
+      continue;
+    }
+    let caps: &[u64] = match n {
+      "arc" => &[2, 4],
+      "slru" => &[2, 10],
+      "tinylfu" => &[0, 100, 300],
+      _ => &[0],
+    };
+    for c in caps {
+      v.push(Inst { name: n, cap: *c });
+    }
+  }
+  v
+}
+
+#[derive(Clone, Copy, Debug)]
+enum Call {
+  Admit(u64, u64),
+  Access(u64),
+  Remove(u64),
+  Evict(u64),
+  Clear,
+}
+
+fn call_of(t: &[u64]) -> Call {
+  match t[0] {
+    1 => Call::Admit(t[1], t[2]),
+    2 => Call::Access(t[1]),
+    3 => Call::Remove(t[1]),
+    4 => Call::Evict(t[1]),
+    5 => Call::Clear,
+    x => panic!("bad op code {x}"),
+  }
+}
+
+fn arr(v: &[u64]) -> String {
+  let s: Vec<String> = v.iter().map(|x| x.to_string()).collect();
+  format!("[{}]", s.join(","))
+}
+
+/// Where the worker is: the history in progress, for the watchdog.
+type Progress = Arc<Mutex<Vec<String>>>;
+
+struct Runner {
+  pol: Pol,
+  told: HashMap<u64, u64>, // cost passed with the last on_admit of a key (argument bookkeeping only)
+  body: Vec<String>,
+  dead: bool,
+  progress: Progress,
+  head: String,
+}
+
+impl Runner {
+  fn new(inst: &Inst, progress: Progress) -> Self {
+    let head = format!(
+      "{{\"k\":\"new\",\"pols\":[\"{}\"],\"inst\":[\"{}\"],\"caps\":[{}],\"kf\":[]}}",
+      inst.name,
+      inst.label(),
+      inst.cap
+    );
+    *progress.lock().unwrap() = vec![head.clone()];
+    Runner { pol: inst.build(), told: HashMap::new(), body: Vec::new(), dead: false, progress, head }
+  }
+
+  fn push(&mut self, s: String) {
+    self.body.push(s);
+  }
+
+  /// Performs one call; returns the victims an admission nominated.
+  fn step(&mut self, c: Call) -> Vec<u64> {
+    if self.dead {
+      return vec![];
+    }
+    // announce the call before making it, so that a hang is attributed to it
+    *self.progress.lock().unwrap() = {
+      let mut p = vec![self.head.clone()];
+      p.extend(self.body.iter().cloned());
+      p.push(format!("{{\"k\":\"hung\",\"op\":\"{:?}\"}}", c));
+      p
+    };
+    let pol = &self.pol;
+    let mut victims = vec![];
+    let rec = match c {
+      Call::Admit(k, cost) => {
+        self.told.insert(k, cost);
+        catch_unwind(AssertUnwindSafe(|| pol.on_admit(&k, cost))).map(|d| match d {
+          AdmissionDecision::Admit => format!("{{\"k\":\"admit\",\"key\":{k},\"c\":{cost}}}"),
+          AdmissionDecision::Reject => format!("{{\"k\":\"admit\",\"key\":{k},\"c\":{cost},\"d\":\"reject\",\"v\":[]}}"),
+          AdmissionDecision::AdmitAndEvict(v) => {
+            victims = v.clone();
+            format!("{{\"k\":\"admit\",\"key\":{k},\"c\":{cost},\"d\":\"evict\",\"v\":{}}}", arr(&v))
+          }
+        })
+      }
+      Call::Access(k) => {
+        // the cache passes the entry's cost: the cost of the key's last admission
+        let cost = *self.told.get(&k).unwrap_or(&1);
+        catch_unwind(AssertUnwindSafe(|| pol.on_access(&k, cost)))
+          .map(|_| format!("{{\"k\":\"access\",\"key\":{k},\"c\":{cost}}}"))
+      }
+      Call::Remove(k) => {
+        catch_unwind(AssertUnwindSafe(|| pol.on_remove(&k))).map(|_| format!("{{\"k\":\"remove\",\"key\":{k}}}"))
+      }
+      Call::Evict(n) => catch_unwind(AssertUnwindSafe(|| pol.evict(n)))
+        .map(|(v, f)| format!("{{\"k\":\"evict\",\"n\":{n},\"v\":{},\"f\":{f}}}", arr(&v))),
+      Call::Clear => catch_unwind(AssertUnwindSafe(|| pol.clear())).map(|_| "{\"k\":\"clear\"}".to_string()),
+    };
+    match rec {
+      Ok(s) => self.push(s),
+      Err(e) => {
+        let msg = e.downcast_ref::<String>().cloned().or_else(|| e.downcast_ref::<&str>().map(|s| s.to_string()));
+        let msg = serde_json::to_string(&msg.unwrap_or_default()).unwrap();
+        self.push(format!("{{\"k\":\"panic\",\"op\":\"{:?}\",\"msg\":{}}}", c, msg));
+        self.dead = true;
+      }
+    }
+    victims
+  }
+
+  /// Returns the body; a history that did not die ends with an `end` record.
+  fn finish(mut self) -> Vec<String> {
+    if !self.dead {
+      self.push("{\"k\":\"end\"}".to_string());
+    }
+    self.body
+  }
+}
+
+#[derive(Default)]
+struct Stats {
+  programs: u64,
+  histories: u64,
+  groups: u64,
+  records: u64,
+  calls: u64,
+  panics: u64,
+}
+
+struct Sink {
+  tx: mpsc::Sender<String>,
+  st: Stats,
+}
+
+impl Sink {
+  /// Writes the histories of one program, identical bodies once.
+  fn emit(&mut self, src: &str, id: u64, runs: Vec<(Inst, Vec<String>)>) {
+    self.st.programs += 1;
+    let mut groups: BTreeMap<Vec<String>, Vec<Inst>> = BTreeMap::new();
+    for (i, b) in runs {
+      self.st.histories += 1;
+      self.st.calls += b.len() as u64;
+      if b.last().map_or(false, |l| l.contains("\"k\":\"panic\"")) {
+        self.st.panics += 1;
+      }
+      groups.entry(b).or_default().push(i);
+    }
+    let mut out = String::new();
+    for (body, insts) in groups {
+      let names: BTreeSet<&str> = insts.iter().map(|i| i.name).collect();
+      let names: Vec<String> = names.iter().map(|n| format!("\"{n}\"")).collect();
+      let labels: Vec<String> = insts.iter().map(|i| format!("\"{}\"", i.label())).collect();
+      let caps: Vec<String> = insts.iter().map(|i| i.cap.to_string()).collect();
+      out.push_str(&format!(
+        "{{\"k\":\"new\",\"pols\":[{}],\"inst\":[{}],\"caps\":[{}],\"kf\":[],\"src\":\"{src}\",\"id\":{id}}}\n",
+        names.join(","),
+        labels.join(","),
+        caps.join(",")
+      ));
+      self.st.groups += 1;
+      self.st.records += 1 + body.len() as u64;
+      for l in body {
+        out.push_str(&l);
+        out.push('\n');
+      }
+    }
+    self.tx.send(out).ok();
+  }
+}
+
+fn run_fixed(inst: &Inst, prog: &[Call], progress: &Progress) -> Vec<String> {
+  let mut r = Runner::new(inst, progress.clone());
+  for c in prog {
+    r.step(*c);
+  }
+  r.finish()
+}
+
+fn parse_seq(line: &str) -> Vec<Call> {
+  let v: Vec<Vec<u64>> = serde_json::from_str(line).expect("sequence line");
+  v.iter().map(|t| call_of(t)).collect()
+}
+
+fn mode_enum(seqs: &str, sel: &BTreeSet<String>, sink: &mut Sink, progress: &Progress) {
+  let insts = enum_instances(sel);
+  let f = std::io::BufReader::new(std::fs::File::open(seqs).expect("open --seqs"));
+  for (id, line) in f.lines().enumerate() {
+    let line = line.unwrap();
+    if line.trim().is_empty() {
+      continue;
+    }
+    let prog = parse_seq(&line);
+    let runs = insts.iter().map(|i| (i.clone(), run_fixed(i, &prog, progress))).collect();
+    sink.emit("enum", id as u64, runs);
+  }
+}
+
+/// A random program: a profile, then calls drawn from it; `janitor` makes the driver behave
+/// like the cache's maintenance pass (victims of an admission are reported back with
+/// on_remove); at the end the policy is drained with evict(1) until it nominates nothing.
+fn mode_rand(programs: u64, ops: u64, seed: u64, sel: &BTreeSet<String>, sink: &mut Sink, progress: &Progress) {
+  const COSTS: [&[u64]; 4] = [&[1], &[0, 1, 3], &[0, 1, 2, 3, 5, 8], &[1, 2, 50]];
+  for p in 0..programs {
+    let mut rng = StdRng::seed_from_u64(seed.wrapping_mul(0x9E37_79B9_7F4A_7C15).wrapping_add(p));
+    let nkeys = rng.random_range(2..=9u64);
+    let costs = COSTS[rng.random_range(0..COSTS.len())];
+    let janitor = rng.random_bool(0.5);
+    let len = rng.random_range(ops / 2..=ops);
+    // weights: admit, access, remove, evict, clear
+    let w: [u32; 5] = match rng.random_range(0..4) {
+      0 => [50, 20, 10, 18, 2],
+      1 => [35, 40, 5, 19, 1],
+      2 => [60, 5, 5, 30, 0],
+      _ => [30, 25, 25, 17, 3],
+    };
+    let total: u32 = w.iter().sum();
+    let mut prog = Vec::new();
+    for _ in 0..len {
+      let mut x = rng.random_range(0..total);
+      let mut kind = 0;
+      for (i, wi) in w.iter().enumerate() {
+        if x < *wi {
+          kind = i;
+          break;
+        }
+        x -= wi;
+      }
+      let k = rng.random_range(1..=nkeys);
+      prog.push(match kind {
+        0 => Call::Admit(k, costs[rng.random_range(0..costs.len())]),
+        1 => Call::Access(k),
+        2 => Call::Remove(k),
+        3 => Call::Evict(match rng.random_range(0..10) {
+          0 => 0,
+          1..=5 => rng.random_range(1..=4),
+          6..=8 => rng.random_range(1..=20),
+          _ => 1000,
+        }),
+        _ => Call::Clear,
+      });
+    }
+    let arc_cap = [1u64, 2, 3, 5, 8][rng.random_range(0..5)];
+    let slru_cap = [0u64, 1, 4, 10, 50][rng.random_range(0..5)];
+    let lfu_cap = [0u64, 1, 10, 100, 400, 1000][rng.random_range(0..6)];
+    let mut runs = Vec::new();
+    for n in ALL {
+      if !sel.is_empty() && !sel.contains(n) {
+        continue;
+      }
+      let inst = Inst { name: n, cap: match n { "arc" => arc_cap, "slru" => slru_cap, "tinylfu" => lfu_cap, _ => 0 } };
+      let mut r = Runner::new(&inst, progress.clone());
+      for c in &prog {
+        let victims = r.step(*c);
+        if janitor {
+          for v in victims {
+            r.step(Call::Remove(v));
+          }
+        }
+      }
+      // drain: what a janitor of a cache that must shrink to nothing would do
+      for _ in 0..(nkeys + 2) {
+        let before = r.body.len();
+        r.step(Call::Evict(1));
+        let empty = r.body.get(before).map_or(true, |l| l.contains("\"v\":[]"));
+        if empty || r.dead {
+          break;
+        }
+      }
+      runs.push((inst, r.finish()));
+    }
+    sink.emit("rand", p, runs);
+  }
+}
+
 fn main() {
-  eprintln!("fv-policyx: not built yet");
-  std::process::exit(2);
+  let args: Vec<String> = std::env::args().skip(1).collect();
+  let mut kv: HashMap<String, String> = HashMap::new();
+  let mut i = 0;
+  while i + 1 < args.len() {
+    kv.insert(args[i].trim_start_matches("--").to_string(), args[i + 1].clone());
+    i += 2;
+  }
+  let get = |k: &str, d: &str| kv.get(k).cloned().unwrap_or_else(|| d.to_string());
+  let mode = get("mode", "rand");
+  let sel: BTreeSet<String> = get("policies", "").split(',').filter(|s| !s.is_empty()).map(|s| s.to_string()).collect();
+  std::panic::set_hook(Box::new(|_| {}));
+
+  if mode == "replay" {
+    let prog = parse_seq(&get("prog", "[]"));
+    let insts = match kv.get("inst") {
+      Some(s) => s.split(',').map(parse_inst).collect(),
+      None => enum_instances(&sel),
+    };
+    let progress: Progress = Arc::new(Mutex::new(vec![]));
+    for inst in insts {
+      let r = Runner::new(&inst, progress.clone());
+      println!("{}", r.head);
+      for l in run_fixed(&inst, &prog, &progress) {
+        println!("{l}");
+      }
+    }
+    return;
+  }
+
+  let out_path = get("out", "/dev/stdout");
+  let mut out = BufWriter::new(std::fs::File::create(&out_path).expect("create --out"));
+  let (tx, rx) = mpsc::channel::<String>();
+  let (done_tx, done_rx) = mpsc::channel::<Stats>();
+  let progress: Progress = Arc::new(Mutex::new(vec![]));
+  let wp = progress.clone();
+  let kv2 = kv.clone();
+  let mode2 = mode.clone();
+  std::thread::spawn(move || {
+    let get = |k: &str, d: &str| kv2.get(k).cloned().unwrap_or_else(|| d.to_string());
+    let mut sink = Sink { tx, st: Stats::default() };
+    match mode2.as_str() {
+      "enum" => mode_enum(&get("seqs", ""), &sel, &mut sink, &wp),
+      "rand" => mode_rand(
+        get("programs", "100").parse().unwrap(),
+        get("ops", "40").parse().unwrap(),
+        get("seed", "1").parse().unwrap(),
+        &sel,
+        &mut sink,
+        &wp,
+      ),
+      m => {
+        eprintln!("unknown mode {m}");
+        std::process::exit(2);
+      }
+    }
+    let Sink { tx, st } = sink;
+    drop(tx);
+    done_tx.send(st).ok();
+  });
+
+  // watchdog: a call that does not return within 20 s is recorded as `hung`
+  let mut hung = 0u64;
+  loop {
+    match rx.recv_timeout(Duration::from_secs(20)) {
+      Ok(chunk) => out.write_all(chunk.as_bytes()).unwrap(),
+      Err(mpsc::RecvTimeoutError::Disconnected) => break,
+      Err(mpsc::RecvTimeoutError::Timeout) => {
+        for l in progress.lock().unwrap().iter() {
+          writeln!(out, "{l}").unwrap();
+        }
+        hung = 1;
+        break;
+      }
+    }
+  }
+  out.flush().unwrap();
+  let st = if hung == 0 { done_rx.recv().unwrap_or_default() } else { Stats::default() };
+  println!(
+    "{{\"mode\":\"{}\",\"programs\":{},\"histories\":{},\"groups\":{},\"records\":{},\"calls\":{},\"panics\":{},\"hung\":{}}}",
+    mode, st.programs, st.histories, st.groups, st.records, st.calls, st.panics, hung
+  );
+  std::process::exit(0);
 }
